@@ -164,6 +164,21 @@ Definition is_lambda (s : st) : bool :=
   | _ => lambda_scan (tl (rest s)) 0 0
   end.
 
+(* ExpressionParser.assignmentFollowsList (fix for the exponential look-ahead): from the `,` on, is there an assignment
+   operator at the same bracket level before the statement ends? *)
+Fixpoint assign_scan (l : list stok) (depth : nat) : bool :=
+  match l with
+  | [] => false
+  | t :: r =>
+    match t with
+    | SLp | SLb | SLbrace => assign_scan r (S depth)
+    | SRp | SRb | SRbrace => match depth with 0 => false | S d => assign_scan r d end
+    | SSemi => match depth with 0 => false | _ => assign_scan r depth end
+    | SAsg _ => match depth with 0 => true | _ => assign_scan r depth end
+    | _ => assign_scan r depth
+    end
+  end.
+
 Definition known_fn (n : nat) : bool := (4 <=? n) && (n <=? 6).
 Definition known_cast (n : nat) : bool := n <? 4.
 
@@ -265,7 +280,7 @@ Definition step_mainstmt (s : st) : res :=
 (* ------------------------------------------------------------------ expression levels *)
 Definition step_assign (s : st) : res :=
   bind (rec (Lvl 1) s) (fun e s1 =>
-    if is_variable_node e && is_comma (cur s1) then
+    if is_variable_node e && is_comma (cur s1) && assign_scan (rest s1) 0 then
       bind (rec (CommaList [e]) s1) (fun l s2 =>
         match cur s2 with
         | SAsg (AEq | AAdd | ASub | AMul | ADiv | ARem | ADot | ACoal) =>
